@@ -354,4 +354,86 @@ func runC20(c *Ctx) {
 		c.Pred("dedup", "dedup-spec", in, strings.Join(got, " ") == strings.Join(want, " "), strings.Join(gotModel, " "), "first occurrences in order with the group minimum TTL", nt)
 		c.Op("dedup", "dedup "+strings.Join(recs, " "), strings.Join(gotModel, " "), nt)
 	}
+	// names written by hand with raw octets above 127 (text-parsed or built in code, not escaped): only the 26 ASCII letters
+	// fold; Unicode look-alikes and neighbours (Kelvin sign / k, long s / s, dotless i / I, 0xFE / 0xFF, 0xC0 / 0xE0) do not
+	rawPairs := [][2]string{{"k", "\u212a"}, {"K", "\u212a"}, {"s", "\u017f"}, {"S", "\u017f"}, {"i", "\u0131"}, {"I", "\u0130"}, {"\xfe", "\xff"},
+		{"\xc0", "\xe0"}, {"\xc9", "\xe9"}, {"ss", "\u00df"}, {"\u00e9", "\u00c9"}, {"a\u0301", "\u00e1"}}
+	for _, pr := range rawPairs {
+		for _, where := range []string{"owner", "rdata", "both"} {
+			mk := func(lbl string) dns.RR {
+				o, tgt := "x"+lbl+"y.example.", "ns.example."
+				if where == "rdata" {
+					o, tgt = "owner.example.", "ns"+lbl+".example."
+				} else if where == "both" {
+					tgt = "ns" + lbl + ".example."
+				}
+				return &dns.NS{Hdr: dns.RR_Header{Name: o, Rrtype: dns.TypeNS, Class: dns.ClassINET, Ttl: 5}, Ns: tgt}
+			}
+			a, b := mk(pr[0]), mk(pr[1])
+			wa, e1 := packRRBytes(a)
+			wb, e2 := packRRBytes(b)
+			if e1 != nil || e2 != nil {
+				continue
+			}
+			c20Pair(c, a, b, wa, wb)
+			out := dns.Dedup([]dns.RR{dns.Copy(a), dns.Copy(b)}, nil)
+			c.Pred("pairs", "dedup-keeps-different-names", "a="+hx(wa)+" b="+hx(wb), len(out) == 2 || canonRR(wa) == canonRR(wb), fmt.Sprint(len(out)), "2", true)
+		}
+	}
+	// the same records as they come out of differently compressed messages (Rdlength differs, the uncompressed octets do not)
+	for i := 0; i < c.Scale(300, 6000); i++ {
+		m := new(dns.Msg)
+		m.SetQuestion("q.zone.example.", dns.TypeMX)
+		m.Response = true
+		base := []string{"zone.example.", "a.zone.example.", "b.a.zone.example."}[r.Intn(3)]
+		mkrr := func(k int) dns.RR {
+			switch k % 5 {
+			case 0:
+				return &dns.NS{Hdr: dns.RR_Header{Name: base, Rrtype: dns.TypeNS, Class: 1, Ttl: 60}, Ns: "ns." + base}
+			case 1:
+				return &dns.MX{Hdr: dns.RR_Header{Name: base, Rrtype: dns.TypeMX, Class: 1, Ttl: 60}, Preference: 10, Mx: "mx." + base}
+			case 2:
+				return &dns.CNAME{Hdr: dns.RR_Header{Name: "c." + base, Rrtype: dns.TypeCNAME, Class: 1, Ttl: 60}, Target: base}
+			case 3:
+				return &dns.SOA{Hdr: dns.RR_Header{Name: base, Rrtype: dns.TypeSOA, Class: 1, Ttl: 60}, Ns: "ns." + base, Mbox: "h." + base, Serial: 1, Refresh: 2, Retry: 3, Expire: 4, Minttl: 5}
+			default:
+				return &dns.PTR{Hdr: dns.RR_Header{Name: "p." + base, Rrtype: dns.TypePTR, Class: 1, Ttl: 60}, Ptr: "t." + base}
+			}
+		}
+		n := 2 + r.Intn(4)
+		for k := 0; k < n; k++ {
+			m.Answer = append(m.Answer, mkrr(r.Intn(5)))
+		}
+		m.Answer = append(m.Answer, dns.Copy(m.Answer[0])) // the same record twice in one message: later one compresses more
+		var views [][]dns.RR
+		for _, comp := range []bool{false, true} {
+			m.Compress = comp
+			w, err := m.Pack()
+			if err != nil {
+				continue
+			}
+			var u dns.Msg
+			if u.Unpack(w) == nil {
+				views = append(views, u.Answer)
+			}
+		}
+		if len(views) != 2 || len(views[0]) != len(views[1]) {
+			continue
+		}
+		for k := range views[0] {
+			x, y := views[0][k], views[1][k]
+			c.Pred("wire-born", "isdup-across-compression", x.String(), dns.IsDuplicate(x, y) && dns.IsDuplicate(y, x),
+				fmt.Sprintf("not duplicates (Rdlength %d / %d)", x.Header().Rdlength, y.Header().Rdlength), "duplicates", true)
+		}
+		last := len(views[1]) - 1
+		c.Pred("wire-born", "isdup-within-message", views[1][0].String(), dns.IsDuplicate(views[1][0], views[1][last]),
+			fmt.Sprintf("not duplicates (Rdlength %d / %d)", views[1][0].Header().Rdlength, views[1][last].Header().Rdlength), "duplicates", true)
+		all := append(append([]dns.RR{}, views[0]...), views[1]...)
+		distinct := map[string]bool{}
+		for _, rr := range views[0] {
+			distinct[normKey(rr)] = true
+		}
+		out := dns.Dedup(all, nil)
+		c.Pred("wire-born", "dedup-across-compression", views[0][0].String(), len(out) == len(distinct), fmt.Sprint(len(out)), fmt.Sprint(len(distinct)), true)
+	}
 }
